@@ -197,6 +197,15 @@ def main(argv):
                     if not hit or consumed != len(events):
                         ok = False
                 os.unlink(fn)
+        if "C20" in props:
+            # negative model: with the guard mechanisms of the PINNED tree (five assert statements in qslst.py) TLC must
+            # find the cells that are answered under the optimized interpreter - the invariant is not vacuous
+            from . import tlc
+            res = tlc.run_tlc("Guards", "CONSTANT PinnedTree = TRUE\nSPECIFICATION Spec\nINVARIANT OutOfDomainRaises\nINVARIANT InterpreterIndependent\nCHECK_DEADLOCK FALSE\n")
+            rejected = not res.get("ok") and "Invariant" in str(res.get("error", "")) + res.get("out", "")
+            n += 1
+            print("selftest C20 %-18s negative model %-46s -> %s" % ("Guards", "mechanism table of the pinned tree (assert guards)", "rejected by TLC" if rejected else "NOT REJECTED"))
+            ok = ok and rejected
     finally:
         import shutil
         shutil.rmtree(work, ignore_errors=True)
